@@ -282,10 +282,24 @@ type Cfg struct {
 	Mode  string `json:"mode"`  // "row" | "batch"
 	Batch int    `json:"batch"` // kvql.PlanBatchSize
 	Cache bool   `json:"cache"` // kvql.EnableFieldCache
+	// round 11, unusual but legal ways of driving a plan:
+	// Past: polls (of the same form) issued after the plan has reported the
+	// end of the rows; rows they return are appended to the result.
+	Past int `json:"past,omitempty"`
+	// StaleCtx: the execute context is created while the switch still has the
+	// other value; the switch is set to Cache before the first poll.
+	StaleCtx bool `json:"stalectx,omitempty"`
 }
 
 func (c Cfg) String() string {
-	return fmt.Sprintf("%s/bs=%d/cache=%v", c.Mode, c.Batch, c.Cache)
+	s := fmt.Sprintf("%s/bs=%d/cache=%v", c.Mode, c.Batch, c.Cache)
+	if c.Past > 0 {
+		s += fmt.Sprintf("/%d polls past the end", c.Past)
+	}
+	if c.StaleCtx {
+		s += "/context created before the switch was set"
+	}
+	return s
 }
 
 type Result struct {
@@ -374,7 +388,15 @@ func Drain(res *Result, cfg Cfg, capPolls int) {
 		}
 	}()
 	SetGlobals(cfg)
-	ctx := kvql.NewExecuteCtx()
+	var ctx *kvql.ExecuteCtx
+	if cfg.StaleCtx {
+		kvql.EnableFieldCache = !cfg.Cache
+		ctx = kvql.NewExecuteCtx()
+		kvql.EnableFieldCache = cfg.Cache
+	} else {
+		ctx = kvql.NewExecuteCtx()
+	}
+	past := cfg.Past
 	for {
 		res.Polls++
 		if res.Polls > capPolls {
@@ -389,6 +411,10 @@ func Drain(res *Result, cfg Cfg, capPolls int) {
 				return
 			}
 			if cols == nil {
+				if past > 0 {
+					past--
+					continue
+				}
 				return
 			}
 			res.Raw = append(res.Raw, cols)
@@ -400,6 +426,10 @@ func Drain(res *Result, cfg Cfg, capPolls int) {
 				return
 			}
 			if len(rows) == 0 {
+				if past > 0 {
+					past--
+					continue
+				}
 				return
 			}
 			for _, cols := range rows {
